@@ -528,6 +528,9 @@ def iter_mutations(func_node):
                     for t in n.targets:
                         if isinstance(t, ast.Subscript) and unparse(t.value) == coll and isinstance(base, ast.Attribute) \
                                 and isinstance(it, ast.Call):
+                            loopvars = {x.id for x in ast.walk(lp.target) if isinstance(x, ast.Name)}
+                            if isinstance(t.slice, ast.Name) and t.slice.id in loopvars:
+                                continue     # re-binding an existing key does not resize the dict
                             hit = n      # d[k] = v while iterating d.items() may resize
                 if hit is not None:
                     # a mutation immediately followed by leaving the loop is safe
